@@ -869,11 +869,18 @@ def case_single(ctx, cls, rng, i, flip, root, cdir):
                 if okz:
                     g = _np(rz)
                     if grow:
-                        ok = g.shape == new and np.array_equal(g[a:a + H, b:b + W], m)
+                        ok = g.shape == new and np.array_equal(g, np.pad(m, ((a, a), (b, b)), constant_values=False))
                     else:
                         ok = g.shape == new and np.array_equal(g, m[a:H - a, b:W - b])
                     _check(ctx, ok, "mask2d.resized", flip=flip, mask=m, new_shape=new, got=g)
                     tags.append("Mask2D|flip%d|str_abs|read_resized_%s" % (flip, "larger" if grow else "smaller"))
+                # both options together: the booleans of the inverted mask, in the resized frame (what loading and resizing in two steps gives)
+                okzi, rzi = _guarded(ctx, "read.unexpected_exception", read_part, aa, part, p, resized_mask_shape=new, invert=True)
+                if okzi:
+                    gi = _np(rzi)
+                    expi = np.pad(~m, ((a, a), (b, b)), constant_values=False) if grow else (~m)[a:H - a, b:W - b]
+                    _check(ctx, gi.shape == expi.shape and np.array_equal(gi.astype(bool), expi), "mask2d.resized", flip=flip, mask=m, new_shape=new, invert=True,
+                           got=gi, expected=expi)
             tags.append("Mask2D|flip%d|str_abs|read_invert" % flip)
     # ---- multi-extension: this object + siblings of other shapes, every one read with its hdu index
     nsib = 1 + int(rng.integers(0, 3))
